@@ -196,3 +196,39 @@ Proof.
   - split. apply ca_line_parses; auto. split. apply cr_item_assembles; auto. auto 10.
   - split. apply ci_line_parses; auto. split. apply ci_item_assembles; auto. auto 10.
 Qed.
+
+(* ---- db / dh / dw / dd with a literal value ------------------------------------------------------------------------------ *)
+From BB Require Import Spec.Data Proofs.DataInt.
+Lemma short_item_assembles l name w v :
+  In (name, w) shorthand_table ->
+  assemble_items [(l, IShort name (FExpr (EArith (ANum v))))] [] [] false =
+  obind (data_passes [(l, IShort name (FInt v))]) (fun chunks => Done {| r_chunks := chunks; r_consts := []; r_labels := [] |}).
+Proof.
+  intro H. cbn in H. destruct H as [H|[H|[H|[H|[]]]]]; injection H as <- <-; unfold assemble_items, data_passes; cbn;
+    destruct (struct_pack _ v) as [[bs|e]|]; reflexivity.
+Qed.
+Lemma short_line_parses l name w tok v :
+  In (name, w) shorthand_table -> parse_immediate [tok] l = FOk (EArith (ANum v)) ->
+  parse_item l [name; tok] = FOk (IShort name (FExpr (EArith (ANum v)))).
+Proof.
+  intros H Hp. cbn in H. destruct H as [H|[H|[H|[H|[]]]]]; injection H as <- <-;
+    (unfold parse_item; cbn [List.length Nat.eqb Nat.leb andb nth_tok nth_error tok_is];
+     match goal with |- context[lower ?h] => let v := eval vm_compute in (lower h) in change (lower h) with v end;
+     cbv beta iota zeta;
+     repeat match goal with
+            | |- context[in_tab ?x ?y] => let v := eval vm_compute in (in_tab x y) in change (in_tab x y) with v
+            | |- context[mem_str ?x ?y] => let v := eval vm_compute in (mem_str x y) in change (mem_str x y) with v
+            | |- context[String.eqb (String ?c ?x) (String ?d ?y)] =>
+                let v := eval vm_compute in (String.eqb (String c x) (String d y)) in change (String.eqb (String c x) (String d y)) with v
+            end;
+     cbv beta iota; cbn [fbind]; rewrite Hp; reflexivity).
+Qed.
+Theorem short_line_end_to_end l name w tok v :
+  In (name, w) shorthand_table -> parse_immediate [tok] l = FOk (EArith (ANum v)) ->
+  exists it, parse_item l [name; tok] = FOk it /\
+    assemble_items [(l, it)] [] [] false =
+    if int_fits w v then Done {| r_chunks := [(l, CBytes (int_bytes w v))]; r_consts := []; r_labels := [] |} else Fail (PAsm l).
+Proof.
+  intros H Hp. eexists. split. eapply short_line_parses; eauto.
+  rewrite (short_item_assembles l name w v H), (shorthand_passes name w H l v). destruct (int_fits w v); reflexivity.
+Qed.
